@@ -53,7 +53,8 @@ def case(draw):
     desc = draw(e2e.structure(max_chains=3, nmax=5, wild=wild, contact=True, hyd=hyd,
                               missing=draw(st.integers(0, 2)) == 0 and mode not in (["--assign-only"], ["--clean"])))  # fmt: skip
     ff = draw(st.sampled_from(strat.FFS))
-    return dict(part="e2e", desc=desc, ff=ff, opts=list(mode) + e2e.neutral_opts(draw, ff, mode), wild=wild)
+    tit = e2e.draw_titration(draw, desc, 4) if mode not in (["--clean"], ["--assign-only"]) else None
+    return dict(part="e2e", desc=desc, ff=ff, opts=list(mode) + e2e.neutral_opts(draw, ff, mode), wild=wild, tit=tit)
 
 
 RINGS = {
@@ -71,9 +72,12 @@ def check(case):
     res = Result()
     desc, ff, opts = case["desc"], case["ff"], case["opts"]
     del CALLS[:]
-    s, r = e2e.run_case(desc, ff, opts)
+    topts = e2e.apply_titration(desc, case.get("tit"), opts)
+    s, r = e2e.run_case(desc, ff, opts + topts)
     ncalls = len(CALLS)
     mode = " ".join(o for o in opts if not o.startswith("--neutral")) or "default"
+    if topts:
+        res.label("titration")
     res.label(f"mode={mode}", "wild" if case.get("wild") else "wells")
     if not r.ok:
         res.label("run-failed")
@@ -127,9 +131,11 @@ def check(case):
             if k in disp and disp[k] > 1e-6:
                 res.bad(f"C04:backbone-moved:{k}", f"{rn} ({pos}, {mode}): {k} moved by {disp[k]:.3f} A")
         if frozen:
-            worst = max(disp.values(), default=0.0)
+            # (on the titration route input hydrogens are stripped and rebuilt by design: heavy atoms only)
+            fdisp = {k: v for k, v in disp.items() if topo.heavy(k)} if topts else disp
+            worst = max(fdisp.values(), default=0.0)
             if worst > 1e-9:
-                k = max(disp, key=disp.get)
+                k = max(fdisp, key=fdisp.get)
                 res.bad("C04:moved-in-frozen-mode", f"{rn} ({mode}): input atom {k} moved by {worst:.3g} A")
             continue
         if not heavy_moved:
@@ -174,7 +180,8 @@ def window_case(draw):
 
 def tip_cases(tier="quick"):
     ffs = ["AMBER", "CHARMM", "PARSE"]
-    return [dict(part="tiptable", desc=d["desc"], ff=ffs[k % 3], opts=d["opts"], wild=False) for k, d in enumerate(e2e.tip_table(tier))]
+    return [dict(part="tiptable", desc=d["desc"], ff=ffs[k % 3], opts=d["opts"], wild=False, tit=d.get("tit"))
+            for k, d in enumerate(e2e.tip_table(tier))]
 
 
 def parts(tier):
